@@ -2,9 +2,11 @@
 from props.common import Rng, bspec, modes, number, CHUNK
 from props.hist import PLATFORMS, history
 
-RULE = ("random histories over {update(n), clone, finalize, finalize_xof(n), count, Write::write, update_reader} with "
+RULE = ("random histories over {update(n) / Write::write(n) (chosen at random per call), clone, finalize, finalize_xof(n), count, Write::write, update_reader} with "
         "update sizes from a boundary mixture (0; 1..64; around 64; around 1024; exact 2^k chunks; degree multiples "
-        "after odd prefixes; up to 40 chunks), all three modes, every forced SIMD level; exhaustive 2-splits of short "
+        "after odd prefixes; up to 40 chunks), all three modes, every forced SIMD level; lazy-merge boundary family (a "
+        "call ending exactly on a 2^k-chunk boundary, then calls of at most 64 bytes through update / Write::write / "
+        "update_reader with queries in between); exhaustive 2-splits of short "
         "lengths. Non-trivial = distinct history with at least two updates and more than one chunk absorbed.")
 MODELLED = ["update_rayon / update_mmap*: same model function as update (their own content is C08 / C11)",
             "derived Clone: copying the model record"]
@@ -26,6 +28,17 @@ def gen_cases(seed, tier):
             n1, n2, n3 = rng.range(0, 3000), rng.range(0, 70000), rng.range(0, 5000)
             lines.append(f"H {rng.choice(ms)} {plat} w:0:{bspec(rng, n1)} c:0 ur:0:{bspec(rng, n2)}:d{rng.range(1, 2000)},d65536 "
                          f"c:0 f:0 u:0:{bspec(rng, n3)} c:0 f:0 x:0:70")
+    # lazy-merge boundary: an absorbing call that ends exactly on a power-of-two subtree boundary (the CV stack then
+    # holds an unmerged pair), followed by tiny absorbing calls through every adapter and a query before the chunk completes
+    for pi, plat in enumerate(PLATFORMS):
+        for k in range(1, 7):
+            big = CHUNK << k
+            for j, small in enumerate((["w", "u", "ur"] * 2)[(pi + k) % 3:][:2]):
+                n1, n2 = rng.range(1, 64), rng.range(1, 64 - 1)
+                pre = [] if (k + j) % 2 else [f"u:0:{bspec(rng, big)}"]      # one or two aligned subtrees before
+                tiny = (lambda n: f"ur:0:{bspec(rng, n)}:d{n}") if small == "ur" else (lambda n: f"{small}:0:{bspec(rng, n)}")
+                lines.append(f"H {rng.choice(ms)} {plat} " + " ".join(pre + [f"{'w' if j else 'u'}:0:{bspec(rng, big)}", tiny(n1), "c:0",
+                             "f:0", "x:0:70", tiny(min(n2, 64 - n1) or 1), "f:0", f"u:0:{bspec(rng, 1500)}", "c:0", "f:0"]))
     # exhaustive 2-splits on short lengths (hash mode, one platform each)
     lens = list(range(0, 131, 1 if tier == "thorough" else 3)) + list(range(1020, 1031)) + list(range(2044, 2053))
     for li, total in enumerate(lens):
@@ -49,7 +62,7 @@ def gen_cases(seed, tier):
 
 def nontrivial(rest, model_line):
     import re
-    sizes = [int(x) for x in re.findall(r"\bu:\d+:\w+/\d+/(\d+)", rest)]
+    sizes = [int(x) for x in re.findall(r"\b(?:u|w|ur):\d+:\w+/\d+/(\d+)", rest)]
     return len(sizes) >= 2 and sum(sizes) > 1024
 
 
